@@ -187,7 +187,7 @@ class ModuleInliner:
 
     # ------------------------------------------------------------------ helper eligibility
     def _eligible(self, h: ast.FunctionDef, nested: bool) -> bool:
-        if h.name in self.anchors or any(h.name.startswith(tok) for tok in self.anchor_stems):
+        if h.name in self.anchors or any(h.name.startswith(tok + "_") or h.name.startswith(tok) and tok.endswith("_") for tok in self.anchor_stems):
             return False
         if not nested and not (h.name.startswith("_") and not h.name.startswith("__")):
             return False
